@@ -162,9 +162,14 @@ def adjust_key_parity_contract(variant='call'):
         params = {'key_in': 'bytes<16>|bytes<24>'}
     elif variant == 'badlen':
         requires = ['len(key_in) != 16 and len(key_in) != 24']
+    extra = {}
+    if variant == 'tdes':
+        # the same statement byte by byte (single-byte obligations: a wrong parity rule is refuted at once)
+        extra = {'parity_first': 'result[0] == spec.modes.odd_parity_fold(key_in[0])',
+                 'parity_last': 'result[len(key_in) - 1] == spec.modes.odd_parity_fold(key_in[len(key_in) - 1])'}
     return Contract(AKP, params=params, requires=requires,
                     raises={'ValueError': ('iff', 'not spec.modes.tdes_key_ok(key_in)')},
-                    ensures={'value': 'result == spec.modes.des_parity(key_in)', 'len': 'len(result) == len(key_in)',
+                    ensures={**extra, 'value': 'result == spec.modes.des_parity(key_in)', 'len': 'len(result) == len(key_in)',
                              'len_ok': 'len(result) == 16 or len(result) == 24', 'bytes': 'isinstance(result, bytes)'},
                     result='bytes', modifies=[], options={'bit_arith': True}, opaque=KEY_OPAQUE if variant == 'call' else [])
 
